@@ -7,6 +7,7 @@ package ref
 import (
 	"fmt"
 	"math/big"
+	"sync"
 )
 
 const (
@@ -169,24 +170,40 @@ func (n Num) String() string {
 	return fmt.Sprintf("%s%se%d", s, n.Coef.String(), n.Exp)
 }
 
-var pow10cache [14000]*big.Int
+const pow10Small = 700
+const pow10Big = 12500
+
+var pow10cache [pow10Small]*big.Int
+var pow10big []*big.Int
+var pow10once sync.Once
 
 func init() {
 	pow10cache[0] = big.NewInt(1)
-	for i := 1; i < 700; i++ {
+	for i := 1; i < pow10Small; i++ {
 		pow10cache[i] = new(big.Int).Mul(pow10cache[i-1], Ten)
 	}
 }
 
 // Pow10 returns 10^n (n >= 0). Values are shared: callers must not modify.
-// Entries below 700 are precomputed; larger ones are computed per call so the
-// function stays safe for concurrent use without locks.
+// Powers up to 12500 are tabulated (the large part lazily, once); larger ones
+// are computed per call.
 func Pow10(n int) *big.Int {
 	if n < 0 {
 		panic("Pow10 negative")
 	}
-	if n < 700 {
+	if n < pow10Small {
 		return pow10cache[n]
+	}
+	if n < pow10Big {
+		pow10once.Do(func() {
+			t := make([]*big.Int, pow10Big)
+			copy(t, pow10cache[:])
+			for i := pow10Small; i < pow10Big; i++ {
+				t[i] = new(big.Int).Mul(t[i-1], Ten)
+			}
+			pow10big = t
+		})
+		return pow10big[n]
 	}
 	return new(big.Int).Exp(Ten, big.NewInt(int64(n)), nil)
 }
